@@ -1,1 +1,1502 @@
 //! Lookup / cross-table-lookup extensions of the run-time STARK family (owned by the C10 builder).
+//!
+//! Two generators, both "correct by construction":
+//!  * `build_lookup_stark`: one `GenStark` definition with 1-2 `Lookup`s (looking columns that are single
+//!    columns, linear combinations, next-row columns or aliases of an earlier column read on the next row;
+//!    optional 0/1 filter columns; table and frequency columns given as linear combinations) and a trace in
+//!    which every filtered looking value is a table value and the frequency column holds the counts;
+//!  * `build_ctl_system`: 2-3 tables with 1-2 cross-table lookups (tuples of column linear combinations,
+//!    filters `c`, `1-c`, `a*b`, the same table looking several times, extra looking values) and traces in
+//!    which the filtered looking tuples and the filtered looked tuples are equal as multisets.
+//! The multiset comparisons at the bottom are the oracles (own code, no library routine involved).
+
+use std::collections::{BTreeMap, BTreeSet};
+
+use plonky2::field::types::{Field, PrimeField64};
+use plonky2::fri::reduction_strategies::FriReductionStrategy;
+use proptest::prelude::*;
+use serde::{Deserialize, Serialize};
+use starky::config::StarkConfig;
+use starky::cross_table_lookup::{CrossTableLookup, TableWithColumns};
+use starky::lookup::{Column, Filter};
+
+use crate::engine::{bx, frac};
+use crate::gen::dsl::F;
+use crate::gen::field::{canonical, P};
+use crate::gen::stark::*;
+
+pub const MAX_COLS: usize = 16;
+
+pub fn fi(k: i64) -> F {
+    F::from_noncanonical_i64(k)
+}
+pub fn fu(x: u64) -> F {
+    F::from_canonical_u64(x % P)
+}
+pub fn cu(x: F) -> u64 {
+    x.to_canonical_u64()
+}
+fn nz(x: i8) -> i64 {
+    if x == 0 {
+        1
+    } else {
+        x as i64
+    }
+}
+
+// ------------------------------------------------------------------------------------------
+// filters
+// ------------------------------------------------------------------------------------------
+
+/// A 0/1 filter over columns of the current row.
+#[derive(Clone, Debug, PartialEq, Eq, Hash, Serialize, Deserialize)]
+pub enum FilterDef {
+    /// always on (`Filter::default()`)
+    None,
+    /// `c`
+    Col(usize),
+    /// `1 - c`
+    Not(usize),
+    /// `a * b` (degree-2 filter; cross-table lookups only)
+    And(usize, usize),
+}
+
+impl FilterDef {
+    pub fn eval(&self, row: &[F]) -> F {
+        match *self {
+            FilterDef::None => F::ONE,
+            FilterDef::Col(c) => row[c],
+            FilterDef::Not(c) => F::ONE - row[c],
+            FilterDef::And(a, b) => row[a] * row[b],
+        }
+    }
+    pub fn to_filter(&self) -> Filter<F> {
+        match *self {
+            FilterDef::None => Filter::default(),
+            FilterDef::Col(c) => Filter::new_simple(Column::single(c)),
+            FilterDef::Not(c) => Filter::new_simple(Column::linear_combination_with_constant(vec![(c, F::NEG_ONE)], F::ONE)),
+            FilterDef::And(a, b) => Filter::new(vec![(Column::single(a), Column::single(b))], vec![]),
+        }
+    }
+    /// the `Option<ColDef>` form used by `LookupDef` (simple filters only)
+    pub fn to_simple(&self) -> Option<ColDef> {
+        match *self {
+            FilterDef::None => None,
+            FilterDef::Col(c) => Some(ColDef::single(c)),
+            FilterDef::Not(c) => Some(ColDef {
+                lin: vec![(c, -1)],
+                next_lin: vec![],
+                constant: 1,
+            }),
+            FilterDef::And(..) => panic!("product filters are not available for Lookup"),
+        }
+    }
+    /// the cell whose flip toggles (or may toggle) the filter on a row
+    pub fn flip_col(&self) -> Option<usize> {
+        match *self {
+            FilterDef::None => None,
+            FilterDef::Col(c) | FilterDef::Not(c) => Some(c),
+            FilterDef::And(a, _) => Some(a),
+        }
+    }
+    pub fn name(&self) -> &'static str {
+        match self {
+            FilterDef::None => "filter_none",
+            FilterDef::Col(_) => "filter_col",
+            FilterDef::Not(_) => "filter_not",
+            FilterDef::And(..) => "filter_and",
+        }
+    }
+}
+
+// ------------------------------------------------------------------------------------------
+// slots: a column linear combination plus the one cell that is solved to hit a target value
+// ------------------------------------------------------------------------------------------
+
+#[derive(Clone, Debug)]
+pub struct Slot {
+    pub col: ColDef,
+    pub solve_col: usize,
+    pub solve_next: bool,
+    pub solve_coef: i64,
+}
+
+impl Slot {
+    /// (row, column) of the cell that determines the value of this combination at `row`
+    pub fn cell(&self, n: usize, row: usize) -> (usize, usize) {
+        if self.solve_next {
+            ((row + 1) % n, self.solve_col)
+        } else {
+            (row, self.solve_col)
+        }
+    }
+    /// overwrite the solve cell so that the combination evaluates to `v` at `row`
+    pub fn set(&self, trace: &mut [Vec<F>], row: usize, v: F) {
+        let (r, c) = self.cell(trace.len(), row);
+        trace[r][c] = F::ZERO;
+        let rest = self.col.eval(trace, row);
+        trace[r][c] = (v - rest) / fi(self.solve_coef);
+    }
+}
+
+#[derive(Clone, Debug, PartialEq, Eq, Hash, Serialize, Deserialize)]
+pub struct RawLookCol {
+    pub kind: u16,
+    pub a: i8,
+    pub b: i8,
+    pub c: i8,
+    pub filt: u16,
+}
+
+fn raw_look_col() -> impl Strategy<Value = RawLookCol> {
+    (any::<u16>(), -3i8..=3, -3i8..=3, -3i8..=3, any::<u16>()).prop_map(|(kind, a, b, c, filt)| RawLookCol { kind, a, b, c, filt })
+}
+
+/// kinds of value columns
+pub const KINDS: [&str; 7] = ["single", "single", "scaled", "lincomb2", "next_single", "next_mixed", "alias_next"];
+
+/// Build the `ColDef` for a value column whose solve column is `s`; `comp` is an optional read-only companion.
+fn make_slot(raw: &RawLookCol, s: usize, comp: Option<usize>, allow_kinds: usize) -> (Slot, &'static str) {
+    let kind = frac(raw.kind, allow_kinds.min(6));
+    let (a, b, c) = (nz(raw.a), nz(raw.b), raw.c as i64);
+    let (col, next, coef) = match (kind, comp) {
+        (0, _) | (1, _) => (ColDef::single(s), false, 1),
+        (2, _) | (3, None) => (
+            ColDef {
+                lin: vec![(s, a)],
+                next_lin: vec![],
+                constant: c,
+            },
+            false,
+            a,
+        ),
+        (3, Some(q)) => (
+            ColDef {
+                lin: vec![(s, a), (q, b)],
+                next_lin: vec![],
+                constant: c,
+            },
+            false,
+            a,
+        ),
+        (4, _) | (5, None) => (
+            ColDef {
+                lin: vec![],
+                next_lin: vec![(s, 1)],
+                constant: 0,
+            },
+            true,
+            1,
+        ),
+        (_, Some(q)) => {
+            if raw.b >= 0 {
+                // companion on the current row, solved cell on the next row
+                (
+                    ColDef {
+                        lin: vec![(q, b)],
+                        next_lin: vec![(s, a)],
+                        constant: c,
+                    },
+                    true,
+                    a,
+                )
+            } else {
+                // solved cell on the current row, companion on the next row
+                (
+                    ColDef {
+                        lin: vec![(s, a)],
+                        next_lin: vec![(q, b)],
+                        constant: c,
+                    },
+                    false,
+                    a,
+                )
+            }
+        }
+    };
+    let name = match kind {
+        3 if comp.is_none() => "scaled",
+        5 if comp.is_none() => "next_single",
+        k => KINDS[k],
+    };
+    (
+        Slot {
+            col,
+            solve_col: s,
+            solve_next: next,
+            solve_coef: coef,
+        },
+        name,
+    )
+}
+
+// ------------------------------------------------------------------------------------------
+// table under construction
+// ------------------------------------------------------------------------------------------
+
+#[derive(Clone, Debug, PartialEq, Eq, Hash, Serialize, Deserialize)]
+pub struct RawComp {
+    pub role: u16,
+    pub a: i8,
+    pub b: i8,
+    pub init: u64,
+    pub frees: Vec<u64>,
+}
+
+fn raw_comp() -> impl Strategy<Value = RawComp> {
+    (any::<u16>(), -3i8..=3, -3i8..=3, canonical(), prop::collection::vec(canonical(), 1..4)).prop_map(|(role, a, b, init, frees)| RawComp { role, a, b, init, frees })
+}
+
+pub struct TabB {
+    pub n: usize,
+    pub degree: usize,
+    pub used: usize,
+    pub trace: Vec<Vec<F>>,
+    pub constraints: Vec<Constraint>,
+    pub roles: Vec<&'static str>,
+    pub comps: Vec<usize>,
+}
+
+impl TabB {
+    pub fn new(log_n: usize, degree: usize) -> Self {
+        let n = 1 << log_n;
+        TabB {
+            n,
+            degree,
+            used: 0,
+            trace: vec![vec![F::ZERO; MAX_COLS]; n],
+            constraints: vec![],
+            roles: vec![],
+            comps: vec![],
+        }
+    }
+    pub fn left(&self) -> usize {
+        MAX_COLS - self.used
+    }
+    pub fn alloc(&mut self, role: &'static str) -> Result<usize, String> {
+        if self.used >= MAX_COLS {
+            return Err("out of columns".into());
+        }
+        self.used += 1;
+        self.roles.push(role);
+        Ok(self.used - 1)
+    }
+    /// a 0/1 column with the constraint x*x - x = 0 on every row (declared degree is >= 2)
+    pub fn alloc_bool(&mut self, role: &'static str, constrained: bool) -> Result<usize, String> {
+        let j = self.alloc(role)?;
+        if constrained {
+            self.constraints.push(Constraint {
+                kind: Kind::Every,
+                poly: Poly {
+                    terms: vec![(1, vec![Var::Local(j), Var::Local(j)]), (-1, vec![Var::Local(j)])],
+                },
+            });
+        }
+        Ok(j)
+    }
+    /// an ordinary constrained / free column that lookups may read but never write
+    pub fn add_companion(&mut self, rc: &RawComp) -> Result<usize, String> {
+        let n = self.n;
+        let (a, b) = (nz(rc.a), rc.b as i64);
+        let role = frac(rc.role, 5);
+        let j = match role {
+            0 | 1 => {
+                // next = a * local + b   |   next = a * local^2 + b
+                let j = self.alloc(if role == 0 { "state_linear" } else { "state_square" })?;
+                let vars = if role == 0 { vec![Var::Local(j)] } else { vec![Var::Local(j), Var::Local(j)] };
+                self.constraints.push(Constraint {
+                    kind: Kind::Transition,
+                    poly: Poly {
+                        terms: vec![(1, vec![Var::Next(j)]), (-a, vars), (-b, vec![])],
+                    },
+                });
+                self.trace[0][j] = fu(rc.init);
+                for i in 1..n {
+                    let x = self.trace[i - 1][j];
+                    self.trace[i][j] = fi(a) * if role == 0 { x } else { x * x } + fi(b);
+                }
+                j
+            }
+            2 if self.degree >= 3 => {
+                let j = self.alloc("state_cube")?;
+                self.constraints.push(Constraint {
+                    kind: Kind::Transition,
+                    poly: Poly {
+                        terms: vec![(1, vec![Var::Next(j)]), (-a, vec![Var::Local(j), Var::Local(j), Var::Local(j)]), (-b, vec![])],
+                    },
+                });
+                self.trace[0][j] = fu(rc.init);
+                for i in 1..n {
+                    let x = self.trace[i - 1][j];
+                    self.trace[i][j] = fi(a) * x * x * x + fi(b);
+                }
+                j
+            }
+            3 => {
+                let j = self.alloc_bool("bool", true)?;
+                for i in 0..n {
+                    self.trace[i][j] = fu(bit(&rc.frees, i, 0));
+                }
+                j
+            }
+            _ => {
+                let j = self.alloc("free")?;
+                for i in 0..n {
+                    self.trace[i][j] = fu(rc.frees[i % rc.frees.len()].wrapping_add((i / rc.frees.len()) as u64));
+                }
+                j
+            }
+        };
+        self.comps.push(j);
+        Ok(j)
+    }
+}
+
+fn bit(words: &[u64], r: usize, j: usize) -> u64 {
+    let len = words.len();
+    (words[(r + j) % len] >> ((r / len * 5 + j * 3) % 64)) & 1
+}
+
+/// shapes ordered by column count: (index into SHAPES)
+fn shapes_by_cols() -> Vec<usize> {
+    let mut idx: Vec<usize> = (0..SHAPES.len()).collect();
+    idx.sort_by_key(|&i| (SHAPES[i].0, i));
+    idx
+}
+
+#[derive(Clone, Debug)]
+pub struct TableBuilt {
+    pub shape: usize,
+    pub def: StarkDef,
+    pub trace: Vec<Vec<F>>,
+    pub pis: Vec<F>,
+    pub log_n: usize,
+    pub lookups: Vec<LookupBuilt>,
+    pub roles: Vec<&'static str>,
+}
+
+/// Pick a shape that fits, fill the padding columns, tie public inputs to companion cells.
+fn finish_table(tb: TabB, log_n: usize, shape_raw: u16, pad_seed: u64, lookups: Vec<LookupBuilt>, requires_ctls: bool) -> TableBuilt {
+    let fitting: Vec<usize> = shapes_by_cols().into_iter().filter(|&i| SHAPES[i].0 >= tb.used).collect();
+    let shape = fitting[frac(shape_raw, fitting.len().min(3))];
+    let (cols, pis_n) = SHAPES[shape];
+    let n = tb.n;
+    let mut roles = tb.roles.clone();
+    let mut trace: Vec<Vec<F>> = tb.trace.iter().map(|r| r[..cols].to_vec()).collect();
+    for j in tb.used..cols {
+        roles.push("pad_free");
+        for (i, row) in trace.iter_mut().enumerate() {
+            row[j] = fu(pad_seed.wrapping_add((i * 31 + j * 7) as u64));
+        }
+    }
+    let mut constraints = tb.constraints.clone();
+    let mut pis = vec![F::ZERO; pis_n];
+    for k in 0..pis_n {
+        if tb.comps.is_empty() {
+            pis[k] = fu(pad_seed.rotate_left(k as u32 + 1));
+            continue;
+        }
+        let col = tb.comps[k % tb.comps.len()];
+        let first = (pad_seed >> k) & 1 == 0;
+        pis[k] = if first { trace[0][col] } else { trace[n - 1][col] };
+        constraints.push(Constraint {
+            kind: if first { Kind::First } else { Kind::Last },
+            poly: Poly {
+                terms: vec![(1, vec![Var::Local(col)]), (-1, vec![Var::Pi(k)])],
+            },
+        });
+    }
+    let def = StarkDef {
+        cols,
+        pis: pis_n,
+        degree: tb.degree,
+        constraints,
+        lookups: lookups.iter().map(|l| l.def.clone()).collect(),
+        requires_ctls,
+    };
+    TableBuilt {
+        shape,
+        def,
+        trace,
+        pis,
+        log_n,
+        lookups,
+        roles,
+    }
+}
+
+// ------------------------------------------------------------------------------------------
+// (a) Lookup
+// ------------------------------------------------------------------------------------------
+
+#[derive(Clone, Debug, PartialEq, Eq, Hash, Serialize, Deserialize)]
+pub struct RawLookup {
+    pub n_cols: u16,
+    pub cols: Vec<RawLookCol>,
+    pub table: RawLookCol,
+    pub freq: RawLookCol,
+    pub table_mode: u16,
+    pub base: u64,
+    pub seeds: Vec<u64>,
+    pub pick_mode: u16,
+    pub picks: Vec<u16>,
+    pub fbits: Vec<u64>,
+    pub bool_filters: bool,
+    pub garbage: u64,
+}
+
+pub fn raw_lookup() -> BoxedStrategy<RawLookup> {
+    bx((
+        (any::<u16>(), prop::collection::vec(raw_look_col(), 5..=5), raw_look_col(), raw_look_col()),
+        (any::<u16>(), canonical(), prop::collection::vec(canonical(), 1..6)),
+        (any::<u16>(), prop::collection::vec(any::<u16>(), 6..20), prop::collection::vec(any::<u64>(), 1..4), any::<bool>(), canonical()),
+    )
+        .prop_map(|((n_cols, cols, table, freq), (table_mode, base, seeds), (pick_mode, picks, fbits, bool_filters, garbage))| RawLookup {
+            n_cols,
+            cols,
+            table,
+            freq,
+            table_mode,
+            base,
+            seeds,
+            pick_mode,
+            picks,
+            fbits,
+            bool_filters,
+            garbage,
+        }))
+}
+
+#[derive(Clone, Debug)]
+pub struct LookupBuilt {
+    pub def: LookupDef,
+    pub filters: Vec<FilterDef>,
+    /// per looking column; `None` for an alias column (its values are those of another column's cells)
+    pub slots: Vec<Option<Slot>>,
+    pub kinds: Vec<&'static str>,
+    pub table_slot: Slot,
+    pub freq_slot: Slot,
+    pub table_mode: &'static str,
+}
+
+impl LookupBuilt {
+    /// write the frequency column so that the multiset relation holds for the current trace;
+    /// Err if a filtered looking value is not a table value
+    pub fn fill_frequencies(&self, trace: &mut [Vec<F>], split_duplicates: bool) -> Result<(), String> {
+        let n = trace.len();
+        let mut first_row: BTreeMap<u64, usize> = BTreeMap::new();
+        let mut dup_of: Vec<Option<usize>> = vec![None; n];
+        for r in 0..n {
+            let t = cu(self.def.table.eval(trace, r));
+            match first_row.get(&t) {
+                Some(&r0) => dup_of[r] = Some(r0),
+                None => {
+                    first_row.insert(t, r);
+                }
+            }
+        }
+        let mut count = vec![0u64; n];
+        for (k, col) in self.def.columns.iter().enumerate() {
+            for r in 0..n {
+                let f = self.filters[k].eval(&trace[r]);
+                if f.is_zero() {
+                    continue;
+                }
+                if !f.is_one() {
+                    return Err(format!("filter of looking column {} is not 0/1 on row {}", k, r));
+                }
+                let v = cu(col.eval(trace, r));
+                match first_row.get(&v) {
+                    Some(&r0) => count[r0] += 1,
+                    None => return Err(format!("looking column {} row {}: value {} is not a table value", k, r, v)),
+                }
+            }
+        }
+        if split_duplicates {
+            for r in 0..n {
+                if let Some(r0) = dup_of[r] {
+                    let moved = count[r0] / 2;
+                    count[r0] -= moved;
+                    count[r] += moved;
+                }
+            }
+        }
+        for r in 0..n {
+            self.freq_slot.set(trace, r, fu(count[r]));
+        }
+        Ok(())
+    }
+}
+
+fn pick_idx(raw: &RawLookup, k: usize, r: usize, n: usize) -> usize {
+    let len = raw.picks.len();
+    let p = raw.picks[(r + 13 * k) % len] as usize;
+    match frac(raw.pick_mode, 5) {
+        0 | 1 => (p + (r / len) * 7) % n,
+        2 => p % 2,
+        3 => (p % 3 + (r / len)) % n,
+        _ => (r + k + p % 2) % n,
+    }
+}
+
+/// Allocate and fill one lookup inside `tb`. `share` = reuse the table column of an earlier lookup.
+pub fn build_lookup(tb: &mut TabB, raw: &RawLookup, max_looking: usize, share: Option<&LookupBuilt>, allow_dups: bool) -> Result<LookupBuilt, String> {
+    let n = tb.n;
+    let min_need = if share.is_some() { 2 } else { 3 };
+    if tb.left() < min_need {
+        return Err("no room for a lookup".into());
+    }
+    let comp = |tb: &TabB, i: usize| -> Option<usize> {
+        if tb.comps.is_empty() {
+            None
+        } else {
+            Some(tb.comps[i % tb.comps.len()])
+        }
+    };
+    // ---- table and frequencies (current-row combinations: the constraints read them on the local row only)
+    let mut table_mode = ["arith", "random", "range", "duplicate", "random"][frac(raw.table_mode, 5)];
+    if table_mode == "duplicate" && !allow_dups {
+        table_mode = "random";
+    }
+    let table_slot = match share {
+        Some(s) => {
+            table_mode = s.table_mode;
+            s.table_slot.clone()
+        }
+        None => {
+            let t = tb.alloc("table")?;
+            make_slot(&raw.table, t, comp(tb, 1), 4).0
+        }
+    };
+    let m = tb.alloc("frequencies")?;
+    let freq_slot = {
+        let a = [1i64, 1, -1, 2][frac(raw.freq.kind, 4)];
+        let c = if raw.freq.filt & 1 == 0 { 0 } else { raw.freq.c as i64 };
+        Slot {
+            col: ColDef {
+                lin: vec![(m, a)],
+                next_lin: vec![],
+                constant: c,
+            },
+            solve_col: m,
+            solve_next: false,
+            solve_coef: a,
+        }
+    };
+    // ---- looking columns
+    let want = [1usize, 2, 3, 4, 5, 2, 1, 3][frac(raw.n_cols, 8)].min(max_looking);
+    let mut slots: Vec<Option<Slot>> = vec![];
+    let mut kinds: Vec<&'static str> = vec![];
+    let mut coldefs: Vec<ColDef> = vec![];
+    let mut aliased: BTreeSet<usize> = BTreeSet::new(); // solve columns that are also read on the next row
+    for k in 0..want {
+        let rc = &raw.cols[k];
+        // alias: read the solve column of an earlier plain single column on the next row
+        if frac(rc.kind, 7) == 6 {
+            if let Some(j) = (0..k).find(|&j| kinds[j] == "single") {
+                let s = slots[j].as_ref().unwrap().solve_col;
+                aliased.insert(s);
+                slots.push(None);
+                kinds.push("alias_next");
+                coldefs.push(ColDef {
+                    lin: vec![],
+                    next_lin: vec![(s, 1)],
+                    constant: 0,
+                });
+                continue;
+            }
+        }
+        if tb.left() == 0 {
+            break;
+        }
+        let s = tb.alloc("looking")?;
+        let (slot, name) = make_slot(rc, s, comp(tb, k), 6);
+        coldefs.push(slot.col.clone());
+        slots.push(Some(slot));
+        kinds.push(name);
+    }
+    if coldefs.is_empty() {
+        return Err("no looking column".into());
+    }
+    // ---- filters (at most two filter columns, shared)
+    let mut fcols: Vec<usize> = vec![];
+    let mut filters: Vec<FilterDef> = vec![];
+    for k in 0..coldefs.len() {
+        let rc = &raw.cols[k];
+        let f = match frac(rc.filt, 5) {
+            0 | 1 => FilterDef::None,
+            x => {
+                let which = k % 2;
+                while fcols.len() <= which && tb.left() > 0 {
+                    fcols.push(tb.alloc_bool("filter", raw.bool_filters)?);
+                }
+                match fcols.get(which).or(fcols.first()) {
+                    None => FilterDef::None,
+                    Some(&c) => {
+                        if x == 4 {
+                            FilterDef::Not(c)
+                        } else {
+                            FilterDef::Col(c)
+                        }
+                    }
+                }
+            }
+        };
+        filters.push(f);
+    }
+    for (j, &c) in fcols.iter().enumerate() {
+        for r in 0..n {
+            tb.trace[r][c] = fu(bit(&raw.fbits, r, j));
+        }
+    }
+    // ---- table values
+    if share.is_none() {
+        let mut seen: BTreeSet<u64> = BTreeSet::new();
+        for r in 0..n {
+            let mut v = match table_mode {
+                "arith" => raw.base.wrapping_add((r as u64) * (1 + (raw.table.b.unsigned_abs() as u64))) % P,
+                "range" => r as u64,
+                _ => raw.seeds[r % raw.seeds.len()].wrapping_add(((r / raw.seeds.len()) as u64) << 20) % P,
+            };
+            while seen.contains(&v) {
+                v = (v + 1) % P;
+            }
+            seen.insert(v);
+            table_slot.set(&mut tb.trace, r, fu(v));
+        }
+        if table_mode == "duplicate" {
+            let v0 = table_slot.col.eval(&tb.trace, 0);
+            table_slot.set(&mut tb.trace, 1, v0);
+        }
+    }
+    let tvals: Vec<F> = (0..n).map(|r| table_slot.col.eval(&tb.trace, r)).collect();
+    // ---- looking values
+    for (k, slot) in slots.iter().enumerate() {
+        let Some(slot) = slot else { continue };
+        let always = aliased.contains(&slot.solve_col);
+        for r in 0..n {
+            let on = filters[k].eval(&tb.trace[r]).is_one();
+            let v = if on || always {
+                tvals[pick_idx(raw, k, r, n)]
+            } else {
+                fu(raw.garbage.wrapping_add((r * 17 + k * 5) as u64))
+            };
+            slot.set(&mut tb.trace, r, v);
+        }
+    }
+    let built = LookupBuilt {
+        def: LookupDef {
+            columns: coldefs,
+            table: table_slot.col.clone(),
+            freq: freq_slot.col.clone(),
+            filters: filters.iter().map(|f| f.to_simple()).collect(),
+        },
+        filters,
+        slots,
+        kinds,
+        table_slot,
+        freq_slot,
+        table_mode,
+    };
+    built.fill_frequencies(&mut tb.trace, true)?;
+    Ok(built)
+}
+
+#[derive(Clone, Debug, PartialEq, Eq, Hash, Serialize, Deserialize)]
+pub struct RawLkStark {
+    pub shape: u16,
+    pub degree: u16,
+    pub log_n: u16,
+    pub two: u16,
+    pub share_table: bool,
+    pub n_comp: u16,
+    pub comps: Vec<RawComp>,
+    pub lookups: Vec<RawLookup>,
+    pub pad: u64,
+    pub config: RawStarkConfig,
+}
+
+pub fn raw_lk_stark() -> BoxedStrategy<RawLkStark> {
+    bx((
+        (any::<u16>(), any::<u16>(), any::<u16>(), any::<u16>(), any::<bool>(), any::<u16>()),
+        prop::collection::vec(raw_comp(), 2..=2),
+        prop::collection::vec(raw_lookup(), 2..=2),
+        canonical(),
+        raw_stark_config(),
+    )
+        .prop_map(|((shape, degree, log_n, two, share_table, n_comp), comps, lookups, pad, config)| RawLkStark {
+            shape,
+            degree,
+            log_n,
+            two,
+            share_table,
+            n_comp,
+            comps,
+            lookups,
+            pad,
+            config,
+        }))
+}
+
+pub fn lookup_limits() -> StarkLimits {
+    StarkLimits {
+        min_log_n: 2,
+        max_log_n: 6,
+        min_queries: 1,
+        max_queries: 6,
+        max_pow: 4,
+        min_degree: 2,
+        max_degree: 3,
+    }
+}
+
+#[derive(Clone, Debug)]
+pub struct LkStark {
+    pub table: TableBuilt,
+    pub config: StarkConfig,
+    pub labels: Vec<String>,
+}
+
+pub fn build_lookup_stark(raw: &RawLkStark) -> Result<LkStark, String> {
+    let lim = lookup_limits();
+    let degree = 2 + frac(raw.degree, 2);
+    let log_n = lim.min_log_n + frac(raw.log_n, lim.max_log_n - lim.min_log_n + 1);
+    let (config, mut labels) = elaborate_stark_config(&raw.config, log_n, &lim, 1);
+    let mut tb = TabB::new(log_n, degree);
+    let n_comp = [0usize, 1, 2, 0][frac(raw.n_comp, 4)];
+    for rc in raw.comps.iter().take(n_comp) {
+        tb.add_companion(rc)?;
+    }
+    let two = frac(raw.two, 3) == 2;
+    let first_max = if two { 4 } else { 5 };
+    let mut lookups = vec![build_lookup(&mut tb, &raw.lookups[0], first_max, None, true)?];
+    if two {
+        let share = if raw.share_table { Some(lookups[0].clone()) } else { None };
+        if let Ok(l) = build_lookup(&mut tb, &raw.lookups[1], 5, share.as_ref(), true) {
+            lookups.push(l);
+            if share.is_some() {
+                labels.push("shared_table".into());
+            }
+        }
+    }
+    labels.push(format!("degree{}", degree));
+    labels.push(format!("log_n{}", log_n));
+    labels.push(format!("lookups{}", lookups.len()));
+    for l in &lookups {
+        labels.push(format!("looking_cols{}", l.def.columns.len()));
+        labels.push(format!("table_{}", l.table_mode));
+        for k in &l.kinds {
+            labels.push(format!("col_{}", k));
+        }
+        for f in &l.filters {
+            labels.push(f.name().into());
+        }
+        if l.table_slot.col.lin.len() > 1 || l.table_slot.col.constant != 0 || l.table_slot.solve_coef != 1 {
+            labels.push("table_lincomb".into());
+        }
+        if l.freq_slot.col.constant != 0 || l.freq_slot.solve_coef != 1 {
+            labels.push("freq_lincomb".into());
+        }
+    }
+    let table = finish_table(tb, log_n, raw.shape, raw.pad, lookups, false);
+    labels.push(format!("cols{}_pis{}", table.def.cols, table.def.pis));
+    Ok(LkStark { table, config, labels })
+}
+
+/// layout of the lookup part of the auxiliary polynomials: (lookup, challenge, first index, number of helper columns);
+/// the running sum `Z` follows the helper columns
+pub fn lookup_aux_layout(def: &StarkDef, num_challenges: usize) -> (Vec<(usize, usize, usize, usize)>, usize) {
+    let mut out = vec![];
+    let mut start = 0;
+    for (l, lk) in def.lookups.iter().enumerate() {
+        let h = lk.columns.len().div_ceil(def.degree - 1);
+        for c in 0..num_challenges {
+            out.push((l, c, start, h));
+            start += h + 1;
+        }
+    }
+    (out, start)
+}
+
+// ------------------------------------------------------------------------------------------
+// oracle (a): logUp relation  sum_{filtered looking} 1/(X+f) = sum_rows m/(X+t)
+// ------------------------------------------------------------------------------------------
+
+pub struct LookupVerdict {
+    /// None = relation holds; Some(first mismatching value)
+    pub defect: Option<String>,
+    pub filtered_values: usize,
+    pub used_table_rows: usize,
+}
+
+/// Err = a filter is not 0/1 valued (outside the statement).
+pub fn lookup_verdict(l: &LookupBuilt, trace: &[Vec<F>]) -> Result<LookupVerdict, String> {
+    let n = trace.len();
+    let mut balance: BTreeMap<u64, F> = BTreeMap::new();
+    let mut filtered_values = 0;
+    for (k, col) in l.def.columns.iter().enumerate() {
+        for r in 0..n {
+            let f = l.filters[k].eval(&trace[r]);
+            if f.is_zero() {
+                continue;
+            }
+            if !f.is_one() {
+                return Err(format!("filter {} is {} on row {}", k, cu(f), r));
+            }
+            filtered_values += 1;
+            *balance.entry(cu(col.eval(trace, r))).or_insert(F::ZERO) += F::ONE;
+        }
+    }
+    let mut used_table_rows = 0;
+    for r in 0..n {
+        let t = cu(l.def.table.eval(trace, r));
+        let m = l.def.freq.eval(trace, r);
+        if m.is_nonzero() {
+            used_table_rows += 1;
+        }
+        *balance.entry(t).or_insert(F::ZERO) -= m;
+    }
+    let defect = balance.iter().find(|(_, b)| b.is_nonzero()).map(|(v, b)| format!("value {} has looking count - declared frequency = {}", v, cu(*b)));
+    Ok(LookupVerdict {
+        defect,
+        filtered_values,
+        used_table_rows,
+    })
+}
+
+// ------------------------------------------------------------------------------------------
+// (b) cross-table lookups
+// ------------------------------------------------------------------------------------------
+
+#[derive(Clone, Debug, PartialEq, Eq, Hash, Serialize, Deserialize)]
+pub struct RawSide {
+    pub table: u16,
+    pub filt: u16,
+    pub cols: Vec<RawLookCol>,
+    pub stride: u16,
+    pub off: u16,
+}
+
+fn raw_side() -> impl Strategy<Value = RawSide> {
+    (any::<u16>(), any::<u16>(), prop::collection::vec(raw_look_col(), 3..=3), any::<u16>(), any::<u16>()).prop_map(|(table, filt, cols, stride, off)| RawSide { table, filt, cols, stride, off })
+}
+
+#[derive(Clone, Debug, PartialEq, Eq, Hash, Serialize, Deserialize)]
+pub struct RawCtl {
+    pub width: u16,
+    pub looked: RawSide,
+    pub n_looking: u16,
+    pub looking: Vec<RawSide>,
+    pub m: u16,
+    pub assign: Vec<u16>,
+    pub extras: u16,
+    pub seeds: Vec<u64>,
+    pub value_mode: u16,
+    pub garbage: u64,
+}
+
+fn raw_ctl() -> impl Strategy<Value = RawCtl> {
+    (
+        (any::<u16>(), raw_side(), any::<u16>(), prop::collection::vec(raw_side(), 3..=3)),
+        (any::<u16>(), prop::collection::vec(any::<u16>(), 4..12), any::<u16>()),
+        (prop::collection::vec(canonical(), 1..6), any::<u16>(), canonical()),
+    )
+        .prop_map(|((width, looked, n_looking, looking), (m, assign, extras), (seeds, value_mode, garbage))| RawCtl {
+            width,
+            looked,
+            n_looking,
+            looking,
+            m,
+            assign,
+            extras,
+            seeds,
+            value_mode,
+            garbage,
+        })
+}
+
+#[derive(Clone, Debug, PartialEq, Eq, Hash, Serialize, Deserialize)]
+pub struct RawTab {
+    pub log_n: u16,
+    pub shape: u16,
+    pub n_comp: u16,
+    pub comps: Vec<RawComp>,
+    pub with_lookup: u16,
+    pub lookup: RawLookup,
+    pub enable_bits: Vec<u64>,
+    pub bool_filters: bool,
+    pub pad: u64,
+}
+
+fn raw_tab() -> impl Strategy<Value = RawTab> {
+    (
+        (any::<u16>(), any::<u16>(), any::<u16>(), prop::collection::vec(raw_comp(), 2..=2)),
+        (any::<u16>(), raw_lookup(), prop::collection::vec(any::<u64>(), 1..3), any::<bool>(), canonical()),
+    )
+        .prop_map(|((log_n, shape, n_comp, comps), (with_lookup, lookup, enable_bits, bool_filters, pad))| RawTab {
+            log_n,
+            shape,
+            n_comp,
+            comps,
+            with_lookup,
+            lookup,
+            enable_bits,
+            bool_filters,
+            pad,
+        })
+}
+
+#[derive(Clone, Debug, PartialEq, Eq, Hash, Serialize, Deserialize)]
+pub struct RawCtlSys {
+    pub three: u16,
+    pub degree: u16,
+    pub same_height: u16,
+    pub two_ctls: u16,
+    pub tables: Vec<RawTab>,
+    pub ctls: Vec<RawCtl>,
+    pub config: RawStarkConfig,
+}
+
+pub fn raw_ctl_sys() -> BoxedStrategy<RawCtlSys> {
+    bx((
+        (any::<u16>(), any::<u16>(), any::<u16>(), any::<u16>()),
+        prop::collection::vec(raw_tab(), 3..=3),
+        prop::collection::vec(raw_ctl(), 2..=2),
+        raw_stark_config(),
+    )
+        .prop_map(|((three, degree, same_height, two_ctls), tables, ctls, config)| RawCtlSys {
+            three,
+            degree,
+            same_height,
+            two_ctls,
+            tables,
+            ctls,
+            config,
+        }))
+}
+
+/// One side (looking entry or looked table) of a cross-table lookup.
+#[derive(Clone, Debug)]
+pub struct SideBuilt {
+    pub table: usize,
+    pub slots: Vec<Slot>,
+    pub filter: FilterDef,
+    /// rows selected by construction
+    pub selected: Vec<usize>,
+}
+
+impl SideBuilt {
+    pub fn tuple(&self, trace: &[Vec<F>], row: usize) -> Vec<F> {
+        self.slots.iter().map(|s| s.col.eval(trace, row)).collect()
+    }
+    pub fn to_twc(&self) -> TableWithColumns<F> {
+        TableWithColumns::new(self.table, self.slots.iter().map(|s| s.col.to_column()).collect(), self.filter.to_filter())
+    }
+}
+
+#[derive(Clone, Debug)]
+pub struct CtlBuilt {
+    /// sorted by table index (the library groups *adjacent* entries of the same table)
+    pub looking: Vec<SideBuilt>,
+    pub looked: SideBuilt,
+    pub extras: Vec<Vec<F>>,
+    pub width: usize,
+}
+
+impl CtlBuilt {
+    pub fn to_ctl(&self) -> CrossTableLookup<F> {
+        CrossTableLookup::new(self.looking.iter().map(|s| s.to_twc()).collect(), self.looked.to_twc())
+    }
+    /// looking tables in order of first appearance, with the positions of their entries
+    pub fn groups(&self) -> Vec<(usize, Vec<usize>)> {
+        let mut out: Vec<(usize, Vec<usize>)> = vec![];
+        for (i, s) in self.looking.iter().enumerate() {
+            match out.last_mut() {
+                Some((t, v)) if *t == s.table => v.push(i),
+                _ => out.push((s.table, vec![i])),
+            }
+        }
+        out
+    }
+}
+
+#[derive(Clone, Debug)]
+pub struct CtlSystem {
+    pub n_tables: usize,
+    pub degree: usize,
+    pub tables: Vec<TableBuilt>,
+    pub ctls: Vec<CtlBuilt>,
+    pub config: StarkConfig,
+    pub labels: Vec<String>,
+}
+
+pub fn ctl_limits() -> StarkLimits {
+    StarkLimits {
+        min_log_n: 2,
+        max_log_n: 5,
+        min_queries: 1,
+        max_queries: 5,
+        max_pow: 3,
+        min_degree: 2,
+        max_degree: 3,
+    }
+}
+
+/// A config admissible for every table height of the system.
+fn fit_config(raw: &RawStarkConfig, log_ns: &[usize], lim: &StarkLimits) -> (StarkConfig, Vec<String>) {
+    let min_log = *log_ns.iter().min().unwrap();
+    let (mut config, labels) = elaborate_stark_config(raw, min_log, lim, 1);
+    for _ in 0..4 {
+        let fc = &config.fri_config;
+        let mut cap = fc.cap_height;
+        for &l in log_ns {
+            let lde = l + fc.rate_bits;
+            let total: usize = fc.reduction_strategy.reduction_arity_bits(l, fc.rate_bits, cap, fc.num_query_rounds).iter().sum();
+            if total + cap > lde {
+                cap = lde - total.min(lde);
+            }
+        }
+        if cap == fc.cap_height {
+            break;
+        }
+        config.fri_config.cap_height = cap;
+    }
+    let fc = &config.fri_config;
+    let ok = log_ns.iter().all(|&l| {
+        let total: usize = fc.reduction_strategy.reduction_arity_bits(l, fc.rate_bits, fc.cap_height, fc.num_query_rounds).iter().sum();
+        total + fc.cap_height <= l + fc.rate_bits && total <= l
+    });
+    if !ok {
+        config.fri_config.reduction_strategy = FriReductionStrategy::ConstantArityBits(1, 0);
+        config.fri_config.cap_height = 0;
+    }
+    (config, labels)
+}
+
+struct Plan {
+    n: usize,
+    degree: usize,
+    log_ns: Vec<usize>,
+    n_ctls: usize,
+    max_width: usize,
+    max_entries: usize,
+    table_lookups: bool,
+    comps: bool,
+    and_filters: bool,
+}
+
+pub fn build_ctl_system(raw: &RawCtlSys) -> Result<CtlSystem, String> {
+    let lim = ctl_limits();
+    let n = 2 + (frac(raw.three, 2));
+    let degree = 2 + frac(raw.degree, 2);
+    let mut log_ns: Vec<usize> = (0..n).map(|t| lim.min_log_n + frac(raw.tables[t].log_n, lim.max_log_n - lim.min_log_n + 1)).collect();
+    if frac(raw.same_height, 3) == 0 {
+        let l0 = log_ns[0];
+        log_ns.iter_mut().for_each(|l| *l = l0);
+    }
+    let n_ctls = 1 + (frac(raw.two_ctls, 5) >= 3) as usize;
+    let mut last_err = String::new();
+    for level in 0..5 {
+        let plan = Plan {
+            n,
+            degree,
+            log_ns: log_ns.clone(),
+            n_ctls: if level >= 4 { 1 } else { n_ctls },
+            max_width: [3, 3, 2, 1, 1][level],
+            max_entries: [3, 3, 2, 2, 1][level],
+            table_lookups: level == 0,
+            comps: level <= 1,
+            and_filters: level <= 2,
+        };
+        match try_build(raw, &plan, &lim) {
+            Ok(mut s) => {
+                s.labels.push(format!("degrade_level{}", level));
+                return Ok(s);
+            }
+            Err(e) => last_err = e,
+        }
+    }
+    Err(format!("could not fit the system: {}", last_err))
+}
+
+fn try_build(raw: &RawCtlSys, plan: &Plan, lim: &StarkLimits) -> Result<CtlSystem, String> {
+    let n = plan.n;
+    let (config, mut labels) = fit_config(&raw.config, &plan.log_ns, lim);
+    let mut tbs: Vec<TabB> = plan.log_ns.iter().map(|&l| TabB::new(l, plan.degree)).collect();
+    let mut table_lookups: Vec<Vec<LookupBuilt>> = vec![vec![]; n];
+    // companions, table-local lookups
+    for t in 0..n {
+        let rt = &raw.tables[t];
+        if plan.comps {
+            let n_comp = [0usize, 1, 2, 1][frac(rt.n_comp, 4)];
+            for rc in rt.comps.iter().take(n_comp) {
+                tbs[t].add_companion(rc)?;
+            }
+        }
+        if plan.table_lookups && frac(rt.with_lookup, 3) == 0 {
+            // duplicates in the table column are exercised in part (a) only
+            let l = build_lookup(&mut tbs[t], &rt.lookup, 2, None, false)?;
+            table_lookups[t].push(l);
+        }
+    }
+    // ---- allocate the sides of every CTL
+    struct SidePlan {
+        table: usize,
+        slots: Vec<Slot>,
+        filter: FilterDef,
+        /// 0 = None requested, otherwise a filter column exists
+        wants_none: bool,
+    }
+    let mut enable_col: Vec<Option<usize>> = vec![None; n];
+    let mut alloc_side = |tbs: &mut Vec<TabB>, rs: &RawSide, table: usize, width: usize| -> Result<SidePlan, String> {
+        let tb = &mut tbs[table];
+        let mut slots = vec![];
+        for i in 0..width {
+            let s = tb.alloc("ctl_value")?;
+            let comp = if tb.comps.is_empty() { None } else { Some(tb.comps[(i + s) % tb.comps.len()]) };
+            slots.push(make_slot(&rs.cols[i], s, comp, 6).0);
+        }
+        let constrained = raw.tables[table].bool_filters;
+        let c = tb.alloc_bool("ctl_filter", constrained)?;
+        let kind = frac(rs.filt, 6);
+        let filter = match kind {
+            0 | 1 | 2 => FilterDef::Col(c),
+            3 => FilterDef::Not(c),
+            4 if plan.and_filters => {
+                let e = match enable_col[table] {
+                    Some(e) => e,
+                    None => {
+                        let e = tb.alloc_bool("ctl_enable", constrained)?;
+                        enable_col[table] = Some(e);
+                        e
+                    }
+                };
+                FilterDef::And(c, e)
+            }
+            _ => FilterDef::Col(c),
+        };
+        Ok(SidePlan {
+            table,
+            slots,
+            filter,
+            wants_none: kind == 5 || kind == 2,
+        })
+    };
+    let mut ctl_plans: Vec<(SidePlan, Vec<SidePlan>, usize)> = vec![];
+    for ci in 0..plan.n_ctls {
+        let rc = &raw.ctls[ci];
+        let width = (1 + frac(rc.width, 3)).min(plan.max_width);
+        // the first CTL is looked up in table 0 and covers every other table; later ones are free
+        let looked_t = if ci == 0 { 0 } else { frac(rc.looked.table, n) };
+        let others: Vec<usize> = (0..n).filter(|&t| t != looked_t).collect();
+        let mut tables: Vec<usize> = if ci == 0 { others.clone() } else { vec![] };
+        let n_looking = (1 + frac(rc.n_looking, 3)).min(plan.max_entries).max(tables.len());
+        let mut i = 0;
+        while tables.len() < n_looking {
+            tables.push(others[frac(rc.looking[i % 3].table, others.len())]);
+            i += 1;
+        }
+        tables.sort(); // entries of the same table must be adjacent
+        let looked = alloc_side(&mut tbs, &rc.looked, looked_t, width)?;
+        let mut looking = vec![];
+        for (i, &t) in tables.iter().enumerate() {
+            looking.push(alloc_side(&mut tbs, &rc.looking[i % 3], t, width)?);
+        }
+        ctl_plans.push((looked, looking, width));
+    }
+    // ---- fill
+    // shared enable columns: 1 where needed, arbitrary elsewhere; start from arbitrary bits
+    for t in 0..n {
+        if let Some(e) = enable_col[t] {
+            for r in 0..tbs[t].n {
+                tbs[t].trace[r][e] = fu(bit(&raw.tables[t].enable_bits, r, 1));
+            }
+        }
+    }
+    let mut ctls = vec![];
+    for (ci, (looked_p, looking_p, width)) in ctl_plans.into_iter().enumerate() {
+        let rc = &raw.ctls[ci];
+        let n0 = tbs[looked_p.table].n;
+        let n_extra_max = [0usize, 0, 1, 3][frac(rc.extras, 4)];
+        let capacity: usize = looking_p.iter().map(|s| tbs[s.table].n).sum::<usize>() + n_extra_max;
+        let m_choices = [n0, 2, 3, n0 / 2, n0 - 1, n0];
+        let m = if frac(rc.m, 8) < 6 { m_choices[frac(rc.m, 8)] } else { 2 + frac(rc.m.wrapping_mul(7919), n0 - 1) };
+        let m = m.clamp(2, n0).min(capacity);
+        // tuple values
+        let value = |j: usize, i: usize| -> F {
+            let idx = j * width + i;
+            match frac(rc.value_mode, 4) {
+                0 => fu((idx % 5) as u64 + (rc.seeds[0] % 3)),                            // small values, many repeats
+                1 => fu(rc.seeds[(j / 2 * width + i) % rc.seeds.len()].wrapping_add((j / 2 / rc.seeds.len()) as u64)), // pairs of equal tuples
+                _ => fu(rc.seeds[idx % rc.seeds.len()].wrapping_add(((idx / rc.seeds.len()) as u64) << 8)),
+            }
+        };
+        let tuples: Vec<Vec<F>> = (0..m).map(|j| (0..width).map(|i| value(j, i)).collect()).collect();
+        // distribute the tuples over the looking entries and the extra values
+        let n_bins = looking_p.len() + (n_extra_max > 0) as usize;
+        let caps: Vec<usize> = looking_p.iter().map(|s| tbs[s.table].n).chain((n_extra_max > 0).then_some(n_extra_max)).collect();
+        let mut bins: Vec<Vec<usize>> = vec![vec![]; n_bins];
+        for j in 0..m {
+            let mut b = if j < looking_p.len() { j } else { frac(rc.assign[j % rc.assign.len()].wrapping_add((j as u16).wrapping_mul(977)), n_bins) };
+            let mut tries = 0;
+            while bins[b].len() >= caps[b] {
+                b = (b + 1) % n_bins;
+                tries += 1;
+                if tries > n_bins {
+                    return Err("no capacity".into());
+                }
+            }
+            bins[b].push(j);
+        }
+        let extras: Vec<Vec<F>> = if n_extra_max > 0 { bins[n_bins - 1].iter().map(|&j| tuples[j].clone()).collect() } else { vec![] };
+        // fill one side: `which[k]` = index of the tuple placed on the k-th selected row
+        let mut fill = |tbs: &mut Vec<TabB>, sp: SidePlan, which: &[usize], rs: &RawSide| -> SideBuilt {
+            let tb = &mut tbs[sp.table];
+            let nn = tb.n;
+            let stride = 2 * frac(rs.stride, nn / 2) + 1;
+            let off = frac(rs.off, nn);
+            let mut sel: Vec<Option<usize>> = vec![None; nn];
+            let mut selected = vec![];
+            for (k, &j) in which.iter().enumerate() {
+                let r = (off + k * stride) % nn;
+                sel[r] = Some(j);
+                selected.push(r);
+            }
+            let filter = if sp.wants_none && which.len() == nn { FilterDef::None } else { sp.filter.clone() };
+            for r in 0..nn {
+                for (i, s) in sp.slots.iter().enumerate() {
+                    let v = match sel[r] {
+                        Some(j) => tuples[j][i],
+                        None => fu(rc.garbage.wrapping_add((r * 13 + i * 3 + sp.table * 101) as u64)),
+                    };
+                    s.set(&mut tb.trace, r, v);
+                }
+                let on = sel[r].is_some();
+                match sp.filter {
+                    FilterDef::Col(c) => tb.trace[r][c] = fu(on as u64),
+                    FilterDef::Not(c) => tb.trace[r][c] = fu(!on as u64),
+                    FilterDef::And(a, e) => {
+                        if on {
+                            tb.trace[r][a] = F::ONE;
+                            tb.trace[r][e] = F::ONE;
+                        } else if tb.trace[r][e].is_one() {
+                            tb.trace[r][a] = F::ZERO;
+                        } else {
+                            tb.trace[r][a] = fu(bit(&[rc.garbage], r, 0));
+                        }
+                    }
+                    FilterDef::None => {}
+                }
+            }
+            SideBuilt {
+                table: sp.table,
+                slots: sp.slots,
+                filter,
+                selected,
+            }
+        };
+        let all: Vec<usize> = (0..m).collect();
+        let looked = fill(&mut tbs, looked_p, &all, &rc.looked);
+        let mut looking = vec![];
+        for (i, sp) in looking_p.into_iter().enumerate() {
+            looking.push(fill(&mut tbs, sp, &bins[i], &rc.looking[i % 3]));
+        }
+        labels.push(format!("ctl_width{}", width));
+        labels.push(format!("ctl_looking_entries{}", looking.len()));
+        labels.push(format!("ctl_extras{}", extras.len().min(2)));
+        ctls.push(CtlBuilt {
+            looking,
+            looked,
+            extras,
+            width,
+        });
+    }
+    // An `And` filter shares the enable column between sides: a later side may have switched a row of an
+    // earlier side on or off. Re-derive the `a` cells of unselected rows so that every side selects exactly
+    // its rows.
+    for ctl in &ctls {
+        for s in ctl.looking.iter().chain(std::iter::once(&ctl.looked)) {
+            if let FilterDef::And(a, e) = s.filter {
+                let tb = &mut tbs[s.table];
+                for r in 0..tb.n {
+                    if !s.selected.contains(&r) && tb.trace[r][e].is_one() {
+                        tb.trace[r][a] = F::ZERO;
+                    }
+                }
+            }
+        }
+    }
+    // the table-local lookups may read companions only, so they are unaffected by the CTL fill
+    labels.push(format!("tables{}", n));
+    labels.push(format!("degree{}", plan.degree));
+    labels.push(format!("ctls{}", ctls.len()));
+    if plan.log_ns.iter().any(|&l| l != plan.log_ns[0]) {
+        labels.push("mixed_heights".into());
+    }
+    let mut tables = vec![];
+    for (t, tb) in tbs.into_iter().enumerate() {
+        let rt = &raw.tables[t];
+        let lks = std::mem::take(&mut table_lookups[t]);
+        if !lks.is_empty() {
+            labels.push("table_with_lookup".into());
+        }
+        let log_n = plan.log_ns[t];
+        let tbuilt = finish_table(tb, log_n, rt.shape, rt.pad, lks, true);
+        labels.push(format!("log_n{}", log_n));
+        labels.push(format!("cols{}_pis{}", tbuilt.def.cols, tbuilt.def.pis));
+        tables.push(tbuilt);
+    }
+    for ctl in &ctls {
+        for (_, g) in ctl.groups() {
+            labels.push(format!("group_size{}", g.len()));
+        }
+        for s in ctl.looking.iter().chain(std::iter::once(&ctl.looked)) {
+            labels.push(s.filter.name().into());
+            for sl in &s.slots {
+                if !sl.col.next_lin.is_empty() {
+                    labels.push("ctl_col_next_row".into());
+                } else if sl.col.lin.len() > 1 || sl.col.constant != 0 || sl.solve_coef != 1 {
+                    labels.push("ctl_col_lincomb".into());
+                } else {
+                    labels.push("ctl_col_single".into());
+                }
+            }
+        }
+    }
+    Ok(CtlSystem {
+        n_tables: n,
+        degree: plan.degree,
+        tables,
+        ctls,
+        config,
+        labels,
+    })
+}
+
+// ------------------------------------------------------------------------------------------
+// oracle (b): multiset of filtered looking tuples (+ extras) == multiset of filtered looked tuples
+// ------------------------------------------------------------------------------------------
+
+pub struct CtlVerdict {
+    pub defect: Option<String>,
+    pub looking_rows: usize,
+    pub looked_rows: usize,
+}
+
+fn side_tuples(s: &SideBuilt, trace: &[Vec<F>], out: &mut Vec<Vec<u64>>) -> Result<(), String> {
+    for r in 0..trace.len() {
+        let f = s.filter.eval(&trace[r]);
+        if f.is_zero() {
+            continue;
+        }
+        if !f.is_one() {
+            return Err(format!("filter of table {} is {} on row {}", s.table, cu(f), r));
+        }
+        out.push(s.tuple(trace, r).into_iter().map(cu).collect());
+    }
+    Ok(())
+}
+
+pub fn ctl_verdict(ctl: &CtlBuilt, extras: &[Vec<F>], traces: &[&Vec<Vec<F>>]) -> Result<CtlVerdict, String> {
+    let mut looking: Vec<Vec<u64>> = vec![];
+    for s in &ctl.looking {
+        side_tuples(s, traces[s.table], &mut looking)?;
+    }
+    let looking_rows = looking.len();
+    for e in extras {
+        looking.push(e.iter().map(|&x| cu(x)).collect());
+    }
+    let mut looked: Vec<Vec<u64>> = vec![];
+    side_tuples(&ctl.looked, traces[ctl.looked.table], &mut looked)?;
+    let looked_rows = looked.len();
+    looking.sort();
+    looked.sort();
+    let defect = if looking == looked {
+        None
+    } else {
+        let only_l = looking.iter().find(|t| looking.iter().filter(|x| x == t).count() != looked.iter().filter(|x| x == t).count());
+        let only_r = looked.iter().find(|t| looking.iter().filter(|x| x == t).count() != looked.iter().filter(|x| x == t).count());
+        Some(format!("tuple {:?} has different multiplicities on the two sides ({} looking rows + {} extras vs {} looked rows)", only_l.or(only_r), looking_rows, extras.len(), looked_rows))
+    };
+    Ok(CtlVerdict {
+        defect,
+        looking_rows,
+        looked_rows,
+    })
+}
+
+// ------------------------------------------------------------------------------------------
+// own computation of the CTL auxiliary columns (reference for forged / re-derived provers)
+// ------------------------------------------------------------------------------------------
+
+/// `sum_i t_i beta^i + gamma`
+pub fn combine(t: &[F], beta: F, gamma: F) -> F {
+    let mut acc = gamma;
+    let mut p = F::ONE;
+    for &x in t {
+        acc += x * p;
+        p *= beta;
+    }
+    acc
+}
+
+/// Helper columns (one per chunk of `degree-1` sides; none for a single side) and the running sum
+/// `Z[i] = sum_{r >= i} sum_sides filter(r) / combine(tuple(r))` of a group of sides living in one table.
+pub fn group_aux(sides: &[&SideBuilt], trace: &[Vec<F>], beta: F, gamma: F, degree: usize) -> (Vec<Vec<F>>, Vec<F>) {
+    let n = trace.len();
+    let chunk = degree - 1;
+    let terms: Vec<Vec<F>> = sides
+        .iter()
+        .map(|s| (0..n).map(|r| s.filter.eval(&trace[r]) * combine(&s.tuple(trace, r), beta, gamma).inverse()).collect())
+        .collect();
+    let helpers: Vec<Vec<F>> = terms.chunks(chunk).map(|ch| (0..n).map(|r| ch.iter().map(|t| t[r]).sum::<F>()).collect()).collect();
+    let mut z = vec![F::ZERO; n];
+    let mut acc = F::ZERO;
+    for r in (0..n).rev() {
+        acc += helpers.iter().map(|h| h[r]).sum::<F>();
+        z[r] = acc;
+    }
+    if sides.len() == 1 {
+        (vec![], z)
+    } else {
+        (helpers, z)
+    }
+}
+
+/// One `CtlZData` entry of a table, in the order in which the library stores them.
+#[derive(Clone, Debug, PartialEq, Eq)]
+pub struct EntryRef {
+    pub ctl: usize,
+    pub challenge: usize,
+    /// positions in `looking` (a group) or None for the looked side
+    pub group: Option<Vec<usize>>,
+    pub n_helpers: usize,
+}
+
+pub fn table_entries(ctls: &[CtlBuilt], table: usize, num_challenges: usize, degree: usize) -> Vec<EntryRef> {
+    let mut out = vec![];
+    for (ci, ctl) in ctls.iter().enumerate() {
+        for c in 0..num_challenges {
+            for (t, g) in ctl.groups() {
+                if t == table {
+                    let n_helpers = if g.len() > 1 { g.len().div_ceil(degree - 1) } else { 0 };
+                    out.push(EntryRef {
+                        ctl: ci,
+                        challenge: c,
+                        group: Some(g),
+                        n_helpers,
+                    });
+                }
+            }
+            if ctl.looked.table == table {
+                out.push(EntryRef {
+                    ctl: ci,
+                    challenge: c,
+                    group: None,
+                    n_helpers: 0,
+                });
+            }
+        }
+    }
+    out
+}
